@@ -21,27 +21,26 @@ theorem busLoadP_none (b : Int) : ∀ (ps : List (PQ ℚ)), (ps.any (fun q => q.
     simp only [List.any_cons, Bool.or_eq_false_iff] at h
     simp [busLoadP, h.1, busLoadP_none b ps h.2]
 
-theorem lastOn_none (f : PQ ℚ → ℚ) (b : Int) : ∀ (ps : List (PQ ℚ)), (ps.any (fun q => q.bus == b)) = false → lastOn f b ps = 0
-  | [], _ => by simp [lastOn, lit0]
-  | p :: ps, h => by
-    simp only [List.any_cons, Bool.or_eq_false_iff] at h
-    simp [lastOn, h.1, lastOn_none f b ps h.2]
+theorem foldl_sumOn (f : PQ ℚ → ℚ) (b : Int) : ∀ (ps : List (PQ ℚ)) (acc : ℚ),
+    ps.foldl (fun acc p => if p.bus == b then acc + (if p.u == 1 then f p else 0.0) else acc) acc
+      = acc + sumOn f b ps
+  | [], acc => by simp [sumOn, lit0]
+  | p :: ps, acc => by
+    unfold sumOn
+    simp only [List.foldl_cons]
+    rw [foldl_sumOn f b ps, foldl_sumOn f b ps (if p.bus == b then (0.0 : ℚ) + _ else 0.0)]
+    split_ifs <;> simp [lit0] <;> ring
 
-/-- at most one load per bus, all connected -/
-def OneOnlinePerBus (ps : List (PQ ℚ)) : Prop := ps.Pairwise (fun a b => a.bus ≠ b.bus) ∧ ∀ p ∈ ps, p.u = 1
-
-theorem exportPd_eq (base : ℚ) (b : Int) : ∀ (ps : List (PQ ℚ)), OneOnlinePerBus ps →
-    exportPd base ps b = busLoadP ps b * base
-  | [], _ => by simp [exportPd, lastOn, busLoadP, lit0]
-  | p :: ps, h => by
-    have hp := List.pairwise_cons.mp h.1
-    have ih := exportPd_eq base b ps ⟨hp.2, fun q hq => h.2 q (by simp [hq])⟩
-    have hu : p.u = 1 := h.2 p (by simp)
+/-- **the exported bus load is the total connected load at the bus** (times the base), for ANY list of loads:
+several loads on a bus, loads out of service -/
+theorem exportPd_eq (base : ℚ) (b : Int) : ∀ (ps : List (PQ ℚ)), exportPd base ps b = busLoadP ps b * base
+  | [] => by simp [exportPd, sumOn, busLoadP, lit0]
+  | p :: ps => by
+    have ih := exportPd_eq base b ps
     unfold exportPd at ih ⊢
-    by_cases hb : p.bus = b
-    · have hnone : (ps.any (fun q => q.bus == b)) = false := by
-        rw [List.any_eq_false]; intro q hq; simp; intro e; exact hp.1 q hq (hb.trans e.symm)
-      simp [lastOn, busLoadP, hb, hnone, hu, busLoadP_none b ps hnone]
-    · simp [lastOn, busLoadP, hb, ih]
+    unfold sumOn
+    simp only [List.foldl_cons]
+    rw [foldl_sumOn]
+    by_cases hb : p.bus = b <;> by_cases hu : p.u = 1 <;> simp [busLoadP, hb, hu, ih, lit0] <;> ring
 
 end Andes.Mpc
